@@ -27,7 +27,7 @@ CLAIMED = {
         "run/accumulate_and_run/ran channel are restored for every outcome (ok, refused for cycle or executor, upstream failure), "
         "level by level up to the root; refusals leave the scope literally unchanged. Pulls of every target in generated DAGs of "
         "parentless nodes, workflow children and nested macro children are compared with the model and with an oracle.",
-   design="13/C11", technique="Coq proofs (induction over closure fuel / stack of scopes, restoration invariants) + differential correspondence + oracle",
+   design="13/C11", technique="Coq proofs (induction over closure fuel / stack of scopes, restoration invariants) + differential correspondence + oracle + get_nodes_in_data_tree REGENERATED from topology.py on every run and proved equal to the model's closure (translator tie)",
    note="Data values, caches and executors actually running are outside the model (oracle checks returned values). Order inside "
         "restored connection lists is not preserved (observation, theorem C11_order_not_restored). C11_nothing_downstream is full "
         "after fix 4976e8b (S12); one known finding remains: a hand-wired `failed` handler of a failing upstream node runs during a "
